@@ -122,6 +122,27 @@ theorem changed_stat_never_matches {o : Opts} {st : PState} {node : Node} {name 
   simp [matchCtime, hic, hx, hy] at h4
   exact h4
 
+/-- the stamp encoding is injective on (second < 2^32, nanosecond < 2^32) -/
+theorem stamp_injective {s n s' n' : Nat} (hs : s < 4294967296) (hs' : s' < 4294967296)
+    (h : stamp s n = stamp s' n') : s = s' ∧ n = n' := by
+  unfold stamp at h
+  omega
+
+/-- (4') Time stamps are compared to the NANOSECOND: a node whose mtime — or, unless `ignore_ctime`, ctime — differs from
+the parent node's in the sub-second part only (same second, other nanoseconds: a same-length in-place rewrite right after
+the write the parent recorded) never matches, so the file is read again.  (Seed C07-5 compared `as_second()`.) -/
+theorem subsecond_change_never_matches {o : Opts} {st : PState} {node : Node} {name : Name} {p : Node}
+    (h : (isParent o st node name).2 = .matched p) {s n s' n' : Nat} (hs : s < 4294967296) (hs' : s' < 4294967296) :
+    (p.md.mtime = some (stamp s n) → node.md.mtime = some (stamp s' n') → s = s' ∧ n = n') ∧
+    (o.ignoreCtime = false → p.md.ctime = some (stamp s n) → node.md.ctime = some (stamp s' n') → s = s' ∧ n = n') := by
+  obtain ⟨_, _, hm, hc⟩ := changed_stat_never_matches h
+  refine ⟨?_, ?_⟩
+  · intro hp hn
+    rw [hp, hn] at hm
+    exact stamp_injective hs hs' (Option.some.inj hm)
+  · intro hic hp hn
+    exact stamp_injective hs hs' (hc hic _ _ hp hn)
+
 /-- (5) With `ignore_inode` unset the inode is never compared (the polarity in `is_parent` is as written);
 this does not touch (2), whose premise does not mention inodes. -/
 theorem inode_ignored_unless_flag_set (o : Opts) (h : o.ignoreInode = false) (p n : Meta) :
